@@ -135,6 +135,7 @@ func toMapData(data any) map[string]any {
 	}
 	// Try to convert struct to map using JSON tags
 	if m := reflect.StructToMap(data); len(m) > 0 {
+		reflect.AddGoNameAliases(m, data)
 		return m
 	}
 	// Return empty map; fields will be accessible via Stack.rootData fallback
